@@ -61,7 +61,8 @@ Definition gt2 (a b : pt) : Prop := lt2 b a.
 
 Ltac geo_setup :=
   repeat match goal with p : pt |- _ => destruct p as [? ?] end;
-  unfold lt2, gt2, cross in *; cbn [fst snd] in *.
+  unfold gt2 in *; unfold lt2, cross in *; cbn [fst snd] in *.
+Ltac geo_close V := first [apply V; lia | (assert (V' := V); clear V; nia)].
 
 (* T: b and c after o, p not before o, p left of o->b, c right of o->b: p left of o->c *)
 Lemma geoT_lt o b c p : lt2 o b -> lt2 o c -> (p = o \/ lt2 o p) ->
@@ -70,7 +71,7 @@ Proof.
   intros Hb Hc [->|Hp] H1 H2; [unfold cross; lia|].
   pose proof (half_plane_trans (fst c - fst o, snd c - snd o) (fst b - fst o, snd b - snd o)
                 (fst p - fst o, snd p - snd o)) as V.
-  unfold lexpos, vx in V. geo_setup. lia.
+  unfold lexpos, vx in V. geo_setup. geo_close V.
 Qed.
 
 Lemma geoT_gt o b c p : gt2 o b -> gt2 o c -> (p = o \/ gt2 o p) ->
@@ -79,7 +80,7 @@ Proof.
   intros Hb Hc [->|Hp] H1 H2; [unfold cross; lia|].
   pose proof (half_plane_trans (fst o - fst c, snd o - snd c) (fst o - fst b, snd o - snd b)
                 (fst o - fst p, snd o - snd p)) as V.
-  unfold lexpos, vx in V. geo_setup. lia.
+  unfold lexpos, vx in V. geo_setup. geo_close V.
 Qed.
 
 (* A: four points in order; a left turn followed by a non-right turn *)
@@ -89,7 +90,7 @@ Proof.
   intros H1 H2 H3 C1 C2.
   pose proof (half_plane_trans (fst q - fst p, snd q - snd p) (fst r - fst q, snd r - snd q)
                 (fst s - fst r, snd s - snd r)) as V.
-  unfold lexpos, vx in V. geo_setup. lia.
+  unfold lexpos, vx in V. geo_setup. geo_close V.
 Qed.
 
 Lemma geoA_gt p q r s : gt2 p q -> gt2 q r -> gt2 r s ->
@@ -98,7 +99,7 @@ Proof.
   intros H1 H2 H3 C1 C2.
   pose proof (half_plane_trans (fst p - fst q, snd p - snd q) (fst q - fst r, snd q - snd r)
                 (fst r - fst s, snd r - snd s)) as V.
-  unfold lexpos, vx in V. geo_setup. lia.
+  unfold lexpos, vx in V. geo_setup. geo_close V.
 Qed.
 
 (* B: p before b, left of a->b; c after b, strictly left of a->b: p left of b->c *)
@@ -108,7 +109,7 @@ Proof.
   intros H1 H2 H3 C1 C2.
   pose proof (half_plane_trans (fst b - fst p, snd b - snd p) (fst b - fst a, snd b - snd a)
                 (fst c - fst b, snd c - snd b)) as V.
-  unfold lexpos, vx in V. geo_setup. lia.
+  unfold lexpos, vx in V. geo_setup. geo_close V.
 Qed.
 
 Lemma geoB_gt a b c p : gt2 a b -> gt2 b c -> gt2 p b ->
@@ -117,5 +118,260 @@ Proof.
   intros H1 H2 H3 C1 C2.
   pose proof (half_plane_trans (fst p - fst b, snd p - snd b) (fst a - fst b, snd a - snd b)
                 (fst b - fst c, snd b - snd c)) as V.
-  unfold lexpos, vx in V. geo_setup. lia.
+  unfold lexpos, vx in V. geo_setup. geo_close V.
 Qed.
+
+(* ------------------------------------------------------------------ consecutive elements *)
+(* stack-side (top at the head) and list-side statements are given by decomposition, so that
+   reversal and suffixes are immediate *)
+Definition STurns (st : list pt) : Prop :=
+  forall l1 c b a l2, st = l1 ++ c :: b :: a :: l2 -> cross a b c > 0.
+Definition SEdges (P : pt -> Prop) (st : list pt) : Prop :=
+  forall l1 b a l2, st = l1 ++ b :: a :: l2 -> forall p, P p -> cross a b p >= 0.
+
+Lemma STurns_suffix pre st : STurns (pre ++ st) -> STurns st.
+Proof. intros H l1 c b a l2 E. apply (H (pre ++ l1) c b a l2). rewrite E, app_assoc. reflexivity. Qed.
+
+Lemma SEdges_suffix P pre st : SEdges P (pre ++ st) -> SEdges P st.
+Proof. intros H l1 b a l2 E. apply (H (pre ++ l1) b a l2). rewrite E, app_assoc. reflexivity. Qed.
+
+Lemma SSorted_suffix {A} (R : A -> A -> Prop) pre st :
+  StronglySorted R (pre ++ st) -> StronglySorted R st.
+Proof.
+  induction pre; cbn; [auto|]. intros H. inversion H; subst. auto.
+Qed.
+
+Section Chain.
+  (* the order in which the points arrive *)
+  Variable R : pt -> pt -> Prop.
+  Variable R_trans : forall a b c, R a b -> R b c -> R a c.
+  Variable R_irrefl : forall a, ~ R a a.
+  Variable R_total : forall a b, R a b \/ a = b \/ R b a.
+  Variable geoT : forall o b c p, R o b -> R o c -> (p = o \/ R o p) ->
+    cross o b p >= 0 -> cross o b c <= 0 -> cross o c p >= 0.
+  Variable geoA : forall p q r s, R p q -> R q r -> R r s ->
+    cross p q r > 0 -> cross q r s >= 0 -> cross p q s > 0.
+  Variable geoB : forall a b c p, R a b -> R b c -> R p b ->
+    cross a b p >= 0 -> cross a b c > 0 -> cross b c p >= 0.
+
+  Definition desc (st : list pt) : Prop := StronglySorted (fun x y => R y x) st.
+  Definition d0 : pt := (0, 0).
+
+  (* P: the points processed so far; st: the stack *)
+  Record Inv (P : pt -> Prop) (st : list pt) : Prop := {
+    inv_ne : st <> [];
+    inv_turns : STurns st;
+    inv_desc : desc st;
+    inv_edges : SEdges P st;
+    inv_top : forall p, P p -> p = hd d0 st \/ R p (hd d0 st);
+    inv_bot : forall p, P p -> p = last st d0 \/ R (last st d0) p;
+    inv_mem : forall x, In x st -> P x
+  }.
+
+  (* what the while loop guarantees on exit *)
+  Definition exit_ok (c : pt) (st : list pt) : Prop :=
+    forall b a t, st = b :: a :: t -> cross a b c > 0.
+
+  Lemma pop_while_exit c st : exit_ok c (pop_while c st).
+  Proof.
+    induction st as [|b st IH]; [intros ? ? ? E; discriminate|].
+    cbn. destruct st as [|a st'].
+    - intros ? ? ? E; discriminate.
+    - destruct (cross a b c <=? 0) eqn:E; [exact IH|].
+      intros b' a' t Et. injection Et as -> -> _. lia.
+  Qed.
+
+  Lemma pop_while_ne c st : st <> [] -> pop_while c st <> [].
+  Proof.
+    induction st as [|b st IH]; [tauto|]. intros _. cbn.
+    destruct st as [|a st']; [discriminate|].
+    destruct (cross a b c <=? 0); [apply IH; discriminate|discriminate].
+  Qed.
+
+  Lemma pop_while_last c st : last (pop_while c st) d0 = last st d0.
+  Proof.
+    induction st as [|b st IH]; [reflexivity|]. cbn [pop_while].
+    destruct st as [|a st']; [reflexivity|].
+    destruct (cross a b c <=? 0); [|reflexivity].
+    rewrite IH. reflexivity.
+  Qed.
+
+  (* every processed point not before the top of the stack is left of top -> c *)
+  Definition Above (c : pt) (P : pt -> Prop) (a : pt) : Prop :=
+    forall p, P p -> (p = a \/ R a p) -> cross a c p >= 0.
+
+  Lemma pop_while_above c P st :
+    st <> [] -> desc st -> SEdges P st -> (forall x, In x st -> R x c) ->
+    Above c P (hd d0 st) -> Above c P (hd d0 (pop_while c st)).
+  Proof.
+    induction st as [|b st IH]; [tauto|]. intros _ Hd He Hc Hab.
+    cbn [pop_while]. destruct st as [|a st']; [exact Hab|].
+    destruct (cross a b c <=? 0) eqn:E; [|exact Hab].
+    apply IH.
+    - discriminate.
+    - inversion Hd; assumption.
+    - apply (SEdges_suffix P [b]). exact He.
+    - intros x Hx. apply Hc. right. exact Hx.
+    - cbn [hd]. intros p Hp Hap.
+      apply (geoT a b c p).
+      + inversion Hd as [|? ? _ Hf]; subst. inversion Hf; assumption.
+      + apply Hc. right; left; reflexivity.
+      + exact Hap.
+      + apply (He [] b a st' eq_refl p Hp).
+      + lia.
+  Qed.
+
+  (* c is strictly left of every edge that stays on the stack *)
+  Lemma edges_new_point c : forall l1 st,
+    STurns st -> desc st -> (forall x, In x st -> R x c) -> exit_ok c st ->
+    forall b a l2, st = l1 ++ b :: a :: l2 -> cross a b c > 0.
+  Proof.
+    induction l1 as [|x l1 IH]; intros st Ht Hd Hc Hex b a l2 E.
+    - apply (Hex b a l2). exact E.
+    - destruct st as [|x' st']; [discriminate|]. injection E as -> E.
+      apply (IH st'); try assumption.
+      + apply (STurns_suffix [x]). exact Ht.
+      + inversion Hd; assumption.
+      + intros y Hy. apply Hc. right; exact Hy.
+      + intros b' a' t Et. subst st'.
+        assert (Hd' := Hd). inversion Hd' as [|? ? Hd1 Hf1]; subst.
+        inversion Hd1 as [|? ? Hd2 Hf2]; subst.
+        apply (geoA a' b' x c).
+        * inversion Hf2; assumption.
+        * inversion Hf1; assumption.
+        * apply Hc. left; reflexivity.
+        * apply (Ht [] x b' a' t eq_refl).
+        * assert (cross b' x c > 0) by (apply (Hex x b' (a' :: t)); reflexivity). lia.
+  Qed.
+
+  Lemma desc_top_max st x : desc st -> In x st -> x = hd d0 st \/ R x (hd d0 st).
+  Proof.
+    intros Hd Hx. destruct st as [|t st]; [destruct Hx|]. cbn [hd].
+    destruct Hx as [->|Hx]; [auto|]. right.
+    inversion Hd as [|? ? _ Hf]; subst. rewrite Forall_forall in Hf. auto.
+  Qed.
+
+  Lemma last_In (st : list pt) : st <> [] -> In (last st d0) st.
+  Proof.
+    induction st as [|a st IH]; [tauto|]. intros _. destruct st as [|b st'].
+    - left; reflexivity.
+    - right. apply IH. discriminate.
+  Qed.
+
+  (* one iteration of the for loop *)
+  Lemma push_inv P st c :
+    Inv P st -> (forall p, P p -> R p c) ->
+    Inv (fun p => p = c \/ P p) (push st c).
+  Proof.
+    intros [Hne Ht Hd He Htop Hbot Hmem] Hc.
+    unfold push.
+    destruct (pop_while_suffix c st) as [pre Epre].
+    set (st' := pop_while c st) in *.
+    assert (Hne' : st' <> []) by (apply pop_while_ne; assumption).
+    assert (Ht' : STurns st') by (apply (STurns_suffix pre); rewrite <- Epre; assumption).
+    assert (Hd' : desc st') by (apply (SSorted_suffix _ pre); rewrite <- Epre; assumption).
+    assert (He' : SEdges P st') by (apply (SEdges_suffix P pre); rewrite <- Epre; assumption).
+    assert (Hmem' : forall x, In x st' -> P x).
+    { intros x Hx. apply Hmem. rewrite Epre. apply in_or_app. auto. }
+    assert (Hc' : forall x, In x st' -> R x c) by (intros; apply Hc, Hmem'; assumption).
+    assert (Hex : exit_ok c st') by apply pop_while_exit.
+    assert (Hab : Above c P (hd d0 st')).
+    { apply pop_while_above; try assumption.
+      - intros x Hx. apply Hc, Hmem, Hx.
+      - intros p Hp [->|Hr]; [unfold cross; lia|].
+        destruct (Htop p Hp) as [->|Hr']; [unfold cross; lia|].
+        exfalso. apply (R_irrefl p). eapply R_trans; eauto. }
+    assert (Hlast : last st' d0 = last st d0) by apply pop_while_last.
+    constructor.
+    - discriminate.
+    - (* turns *)
+      intros l1 c' b a l2 E. destruct l1 as [|y l1]; cbn in E.
+      + injection E as <- E. apply (Hex b a l2 E).
+      + injection E as _ E. apply (Ht' l1 c' b a l2 E).
+    - (* order *)
+      constructor; [exact Hd'|]. apply Forall_forall. exact Hc'.
+    - (* edges *)
+      intros l1 b a l2 E p [->|Hp].
+      + (* the new point against every edge *)
+        destruct l1 as [|y l1]; cbn in E.
+        * injection E as <- E. unfold cross; lia.
+        * injection E as _ E.
+          assert (cross a b c > 0); [|lia].
+          apply (edges_new_point c l1 st' Ht' Hd' Hc' Hex b a l2 E).
+      + destruct l1 as [|y l1]; cbn in E.
+        * (* the new edge (top of st', c) against an old point *)
+          injection E as <- E.
+          destruct (R_total a p) as [Hr|[Hr|Hr]].
+          -- apply Hab; [exact Hp|]. rewrite E. cbn. auto.
+          -- apply Hab; [exact Hp|]. rewrite E. cbn. auto.
+          -- destruct l2 as [|a' l2].
+             ++ exfalso. assert (last st' d0 = a) by (rewrite E; reflexivity).
+                destruct (Hbot p Hp) as [Hq|Hq]; rewrite <- Hlast, H in Hq.
+                ** subst p. apply (R_irrefl a Hr).
+                ** apply (R_irrefl a). eapply R_trans; eauto.
+             ++ apply (geoB a' a b p).
+                ** rewrite E in Hd'. inversion Hd' as [|? ? _ Hf]; subst. inversion Hf; assumption.
+                ** apply Hc'. rewrite E. left; reflexivity.
+                ** exact Hr.
+                ** apply (He' [] a a' l2 E p Hp).
+                ** apply (Hex a a' l2 E).
+        * injection E as _ E. apply (He' l1 b a l2 E p Hp).
+    - (* top *)
+      cbn [hd]. intros p [->|Hp]; auto.
+    - (* bottom *)
+      intros p Hp.
+      assert (El : last (c :: st') d0 = last st d0).
+      { rewrite <- Hlast. destruct st'; [tauto|reflexivity]. }
+      rewrite El. destruct Hp as [->|Hp]; [|auto].
+      right. apply Hc, Hmem, last_In, Hne.
+    - intros x [->|Hx]; auto.
+  Qed.
+
+  (* the whole loop over an R-increasing list *)
+  Lemma fold_push_inv : forall l P st,
+    Inv P st -> StronglySorted R l -> (forall x p, In x l -> P p -> R p x) ->
+    Inv (fun p => P p \/ In p l) (fold_left push l st).
+  Proof.
+    induction l as [|c l IH]; intros P st HI Hs Hlt; cbn [fold_left].
+    - destruct HI. constructor; try assumption; intros; try tauto.
+      + intros l1 b a l2 E p [Hp|[]]. eapply inv_edges0; eauto.
+      + destruct H as [H|[]]; auto.
+      + destruct H as [H|[]]; auto.
+    - inversion Hs as [|? ? Hs' Hf]; subst. rewrite Forall_forall in Hf.
+      assert (HI' : Inv (fun p => p = c \/ P p) (push st c)).
+      { apply push_inv; [exact HI|]. intros p Hp. apply (Hlt c p); [left; reflexivity|exact Hp]. }
+      specialize (IH _ _ HI' Hs').
+      assert (Inv (fun p => (p = c \/ P p) \/ In p l) (fold_left push l (push st c))).
+      { apply IH. intros x p Hx [->|Hp]; [apply Hf, Hx|]. apply Hlt; [right; exact Hx|exact Hp]. }
+      destruct H. constructor; try assumption.
+      + intros l1 b a l2 E p Hp. eapply inv_edges0; [exact E|]. cbn in Hp. intuition.
+      + intros p Hp. apply inv_top0. cbn in Hp. intuition.
+      + intros p Hp. apply inv_bot0. cbn in Hp. intuition.
+      + intros x Hx. apply inv_mem0 in Hx. cbn. intuition.
+  Qed.
+
+  Lemma chain_stack_inv x l :
+    StronglySorted R (x :: l) ->
+    Inv (fun p => In p (x :: l)) (chain_stack (x :: l)).
+  Proof.
+    intros Hs. unfold chain_stack. cbn [fold_left]. change (push [] x) with [x].
+    inversion Hs as [|? ? Hs' Hf]; subst. rewrite Forall_forall in Hf.
+    assert (H0 : Inv (fun p => p = x) [x]).
+    { constructor.
+      - discriminate.
+      - intros [|? [|? [|? ?]]] ? ? ? ? E; discriminate.
+      - constructor; constructor.
+      - intros [|? [|? ?]] ? ? ? E; discriminate.
+      - cbn. auto.
+      - cbn. auto.
+      - intros y [->|[]]. reflexivity. }
+    pose proof (fold_push_inv l _ _ H0 Hs') as H.
+    assert (HI : Inv (fun p => p = x \/ In p l) (fold_left push l [x])).
+    { apply H. intros y p Hy ->. apply Hf, Hy. }
+    destruct HI. constructor; try assumption.
+    - intros l1 b a l2 E p Hp. eapply inv_edges0; [exact E|]. cbn in Hp. intuition.
+    - intros p Hp. apply inv_top0. cbn in Hp. intuition.
+    - intros p Hp. apply inv_bot0. cbn in Hp. intuition.
+    - intros y Hy. apply inv_mem0 in Hy. cbn. intuition.
+  Qed.
+End Chain.
